@@ -27,6 +27,7 @@ LINES = [
     "  ip address 10.1.2.3 255.255.255.0 secondary",
     " ipv6 address 2001:db8::12/64",
     "neighbor ::ffff:10.1.2.3 remote-as 65001",
+    " nat64 prefix 64:ff9b::198.51.100.37 peer ::11.22.33.44 via 1:2:3:4:5:6:138.7.6.5",
     "password 10.9.8.7",
     "username seattle password 7 082959401D1C1745",
     "snmp-server community 65001 ro",
@@ -85,6 +86,51 @@ def fa(opt, pwd=False, ip=False, undo=False, word=False, asn=False):
             preserve_suffix_v4=opt["B"], preserve_suffix_v6=opt["B"])
 
 
+def ip_stage_direct(opt, undo, text):
+    """The IP stage composed by hand from the two library anonymizers: IPv6 pass, then IPv4 pass
+    (the fixed order of the statement), line by line."""
+    from netconan import ip_anonymization as m
+
+    a6 = m.IpV6Anonymizer(opt["salt"], preserve_suffix=opt["B"])
+    a4 = m.IpAnonymizer(opt["salt"],
+                        None if opt["prefixes"] is None else list(opt["prefixes"]),
+                        None if opt["networks"] is None else list(opt["networks"]),
+                        preserve_suffix=opt["B"])
+    out = []
+    for line in text.splitlines(True):
+        line = m.anonymize_ip_addr(a6, line, undo)
+        line = m.anonymize_ip_addr(a4, line, undo)
+        out.append(line)
+    return "".join(out)
+
+
+def stage_direct(kind, opt, text, state):
+    """One non-IP stage composed by hand from the library components (None if the component
+    API is not there any more: a lost seam is counted, never an alarm)."""
+    try:
+        from netconan import sensitive_item_removal as sir
+        from netconan.default_reserved_words import default_reserved_words
+
+        reserved = set(default_reserved_words) | set(opt["reserved"] or [])
+        out = []
+        if kind == "pwd":
+            rx = sir.generate_default_sensitive_item_regexes()
+            lookup = state.setdefault("lookup", {})
+            for line in text.splitlines(True):
+                out.append(sir.replace_matching_item(rx, line, lookup, opt["salt"], reserved))
+        elif kind == "word":
+            w = sir.SensitiveWordAnonymizer(list(WORDS), opt["salt"], reserved)
+            for line in text.splitlines(True):
+                out.append(w.anonymize(line))
+        else:
+            a = sir.AsNumberAnonymizer(list(ASNS), opt["salt"])
+            for line in text.splitlines(True):
+                out.append(sir.anonymize_as_numbers(a, line))
+        return "".join(out)
+    except (AttributeError, TypeError, ImportError):
+        return None
+
+
 def run(an, text):
     out = io.StringIO()
     with seams.capture_logs():
@@ -120,18 +166,55 @@ class ComposePart(Part):
                     stages = []
                     if pwd:
                         nxt = run(fa(opt, pwd=True), chain)
+                        with seams.capture_logs():
+                            direct = stage_direct("pwd", opt, chain, {})
+                        if direct is None:
+                            res.count("direct_seam_lost")
+                        elif direct != nxt:
+                            dl, nl = direct.split("\n"), nxt.split("\n")
+                            i = [k for k in range(min(len(dl), len(nl))) if dl[k] != nl[k]][0]
+                            res.violation("pwd-stage-differs-from-library-component",
+                                          "options %r: single-feature anonymizer gives %r, the component alone %r" % (
+                                              opt, nl[i], dl[i]), {"F": case["F"], "opt": opt})
                         stages.append(nxt != chain)
                         chain = nxt
                     if ip:
                         nxt = run(fa(opt, ip=True, undo=undo), chain)
+                        direct = ip_stage_direct(opt, undo, chain)
+                        if direct != nxt:
+                            dl, nl = direct.split("\n"), nxt.split("\n")
+                            i = [k for k in range(min(len(dl), len(nl))) if dl[k] != nl[k]][0]
+                            res.violation("ip-stage-differs-from-ipv6-then-ipv4|" + ("undo" if undo else "anonymize"),
+                                          "options %r: IP-only anonymizer gives %r, IPv6 pass then IPv4 pass gives %r" % (
+                                              opt, nl[i], dl[i]), {"F": case["F"], "opt": opt})
                         stages.append(nxt != chain)
                         chain = nxt
                     if word:
                         nxt = run(fa(opt, word=True), chain)
+                        with seams.capture_logs():
+                            direct = stage_direct("word", opt, chain, {})
+                        if direct is None:
+                            res.count("direct_seam_lost")
+                        elif direct != nxt:
+                            dl, nl = direct.split("\n"), nxt.split("\n")
+                            i = [k for k in range(min(len(dl), len(nl))) if dl[k] != nl[k]][0]
+                            res.violation("word-stage-differs-from-library-component",
+                                          "options %r: single-feature anonymizer gives %r, the component alone %r" % (
+                                              opt, nl[i], dl[i]), {"F": case["F"], "opt": opt})
                         stages.append(nxt != chain)
                         chain = nxt
                     if asn:
                         nxt = run(fa(opt, asn=True), chain)
+                        with seams.capture_logs():
+                            direct = stage_direct("as", opt, chain, {})
+                        if direct is None:
+                            res.count("direct_seam_lost")
+                        elif direct != nxt:
+                            dl, nl = direct.split("\n"), nxt.split("\n")
+                            i = [k for k in range(min(len(dl), len(nl))) if dl[k] != nl[k]][0]
+                            res.violation("as-stage-differs-from-library-component",
+                                          "options %r: single-feature anonymizer gives %r, the component alone %r" % (
+                                              opt, nl[i], dl[i]), {"F": case["F"], "opt": opt})
                         stages.append(nxt != chain)
                         chain = nxt
                 finally:
